@@ -1,9 +1,186 @@
+/-
+  C10 — displayed content can never inject control sequences into the terminal.
+
+  Part 1: the cell constructor `Char.__init__`, the escaping writer `Vt100_Output.write`,
+  the safe print path `print_formatted_text`, and the side conditions on the regenerated
+  `Char.display_mappings`.
+
+  (Part 2 `Props/C10Copy.lean`: `Window._copy_body` keeps every screen cell control-free;
+   Part 3 `Props/C10Diff.lean`: `_output_screen_diff` write discipline;
+   Part 4 `Props/C10Tok.lean`: the tokenised output stream.)
+
+  All theorems about cells hold for ANY display table `m` satisfying the decidable side
+  conditions and ANY width function `wc`; `gen_ok` re-decides the side conditions on the
+  table regenerated from /repo on every run.
+-/
 import Ptk.Model.C10
 import Ptk.Gen.C10Display
 namespace Ptk.C10
 open Ptk.Py
 
-/-- `Vt100_Output.write` never emits ESC. -/
+/-! ### helper lemmas -/
+
+theorem cleanB_iff (t : Text) : cleanB t = true ↔ Clean t := by
+  simp [cleanB, Clean]
+
+theorem clean_append {a b : Text} (ha : Clean a) (hb : Clean b) : Clean (a ++ b) := by
+  intro c hc
+  rcases List.mem_append.mp hc with h | h
+  · exact ha c h
+  · exact hb c h
+
+theorem clean_nil : Clean [] := by intro c hc; simp at hc
+
+theorem lookup_mem {m : Table} {s v : Text} (h : lookup m s = some v) : (s, v) ∈ m := by
+  induction m with
+  | nil => simp [lookup] at h
+  | cons kv rest ih =>
+    obtain ⟨k, w⟩ := kv
+    simp only [lookup] at h
+    split at h
+    · rename_i hk; cases h; simp [hk]
+    · simp [ih h]
+
+theorem isControl_mem_codes {c : Char} (h : isControl c = true) : c.toNat ∈ controlCodes := by
+  simp only [isControl, Bool.or_eq_true, decide_eq_true_eq, Bool.and_eq_true] at h
+  simp only [controlCodes, List.mem_append, List.mem_range, List.mem_map]
+  rcases h with h | ⟨h1, h2⟩
+  · exact Or.inl h
+  · exact Or.inr ⟨c.toNat - 0x7f, by omega, by omega⟩
+
+theorem covered_of_control {m : Table} (hc : coversControls m = true) {c : Char}
+    (h : isControl c = true) : (lookup m [c]).isSome = true := by
+  have := List.all_eq_true.mp hc _ (isControl_mem_codes h)
+  simpa [Char.ofNat_toNat] using this
+
+theorem value_clean {m : Table} (hp : valuesPrintable m = true) {s v : Text}
+    (h : lookup m s = some v) : Clean v := by
+  have := List.all_eq_true.mp hp _ (lookup_mem h)
+  exact (cleanB_iff v).mp this
+
+/-! ### the cell constructor -/
+
+/-- **Main cell theorem.** For every Unicode scalar value `c` (all 1 112 064 of them at once)
+    and every style, the text of the screen cell `Char(c, style)` contains no control
+    character. -/
+theorem cell_no_control {m : Table} (wc : Char → Int) (hc : coversControls m = true)
+    (hp : valuesPrintable m = true) (c : Char) (style : Text) :
+    Clean (mkCell m wc [c] style).char := by
+  unfold mkCell
+  split
+  · rename_i v h; exact value_clean hp h
+  · rename_i h
+    intro x hx
+    simp only [List.mem_singleton] at hx
+    subst hx
+    cases hx : isControl x with
+    | false => rfl
+    | true => have := covered_of_control hc hx; simp [h] at this
+
+example : (mkCell Gen.C10.displayMappings Gen.C10.wcwidth [ESC] ['x']).char = ['^', '['] := by decide +kernel
+example : (mkCell Gen.C10.displayMappings Gen.C10.wcwidth [Char.ofNat 0x9b] []).char = ['<', '9', 'b', '>'] := by
+  decide +kernel
+example : (mkCell Gen.C10.displayMappings Gen.C10.wcwidth ['a'] []).char = ['a'] := by decide +kernel
+
+/-- `Char(s, style).char` is control-free whenever the string `s` (of any length: merged
+    cells, re-styled cells) is. -/
+theorem mkCell_clean {m : Table} (wc : Char → Int) (hp : valuesPrintable m = true)
+    {s : Text} (hs : Clean s) (style : Text) : Clean (mkCell m wc s style).char := by
+  unfold mkCell
+  split
+  · rename_i v h; exact value_clean hp h
+  · exact hs
+
+example : Clean ['e', Char.ofNat 0x301] := (cleanB_iff _).mp (by decide)
+
+/-- The cell text is either the table's display string or the character itself: nothing else
+    is ever substituted (printable characters are shown as they are). -/
+theorem cell_text_cases (m : Table) (wc : Char → Int) (c : Char) (style : Text) :
+    (mkCell m wc [c] style).char = [c] ∨ ∃ v, ([c], v) ∈ m ∧ (mkCell m wc [c] style).char = v := by
+  unfold mkCell
+  split
+  · rename_i v h; exact Or.inr ⟨v, lookup_mem h, rfl⟩
+  · exact Or.inl rfl
+
+/-- A character whose cell has width 0 — the only characters `_copy_body` merges RAW into the
+    previous cell — is never a control character. -/
+theorem merge_no_control {m : Table} {wc : Char → Int} (hc : coversControls m = true)
+    (hw : valuesWidthPos m wc = true) {c : Char} {style : Text}
+    (h0 : (mkCell m wc [c] style).width = 0) : isControl c = false := by
+  cases hx : isControl c with
+  | false => rfl
+  | true =>
+    have hs := covered_of_control hc hx
+    obtain ⟨v, hv⟩ := Option.isSome_iff_exists.mp hs
+    have hpos := List.all_eq_true.mp hw _ (lookup_mem hv)
+    simp [mkCell, hv] at h0
+    simp [h0] at hpos
+
+-- the hypothesis is satisfiable: a combining accent has width 0
+example : (mkCell Gen.C10.displayMappings Gen.C10.wcwidth [Char.ofNat 0x301] []).width = 0 := by decide +kernel
+
+/-- The merged cell `Char(prev.char + c, prev.style)` is control-free when the previous cell was. -/
+theorem merged_cell_clean {m : Table} {wc : Char → Int} (hc : coversControls m = true)
+    (hp : valuesPrintable m = true) (hw : valuesWidthPos m wc = true) {c : Char} {style : Text}
+    (h0 : (mkCell m wc [c] style).width = 0) {prev : Cell} (hprev : Clean prev.char) :
+    Clean (mkCell m wc (prev.char ++ [c]) prev.style).char := by
+  apply mkCell_clean wc hp
+  apply clean_append hprev
+  intro x hx
+  simp only [List.mem_singleton] at hx
+  subst hx
+  exact merge_no_control hc hw h0
+
+/-- A control character is always displayed with width ≥ 1. -/
+theorem control_cell_width_pos {m : Table} {wc : Char → Int} (hc : coversControls m = true)
+    (hw : valuesWidthPos m wc = true) {c : Char} (style : Text) (hx : isControl c = true) :
+    0 < (mkCell m wc [c] style).width := by
+  rcases Nat.eq_zero_or_pos (mkCell m wc [c] style).width with h | h
+  · have := merge_no_control hc hw h; simp [hx] at this
+  · exact h
+
+example : isControl ESC = true := by decide
+
+/-! ### the regenerated table -/
+
+/-- `^X` (caret) form of a C0 control / DEL, `<hh>` (hex) form of a C1 control -/
+def caretOrHex (n : Nat) : Text :=
+  if n < 0x80 then ['^', Char.ofNat (n ^^^ 0x40)]
+  else ['<', Nat.digitChar (n / 16), Nat.digitChar (n % 16), '>']
+
+/-- every control character is shown in caret or (lower-case) hex notation -/
+def displayForms (m : Table) : Bool :=
+  controlCodes.all fun n => lookup m [Char.ofNat n] == some (caretOrHex n)
+
+/-- distinct control characters have distinct display strings -/
+def displayInjective (m : Table) : Bool :=
+  controlCodes.all fun a => controlCodes.all fun b =>
+    a == b || lookup m [Char.ofNat a] != lookup m [Char.ofNat b]
+
+/-- **Side conditions re-decided by the kernel on the table regenerated from /repo.**
+    A change of `Char.display_mappings` that drops a control character, maps one to a string
+    containing a control character, or to a zero-width string, fails the build here. -/
+theorem gen_ok :
+    coversControls Gen.C10.displayMappings = true ∧
+    valuesPrintable Gen.C10.displayMappings = true ∧
+    valuesWidthPos Gen.C10.displayMappings Gen.C10.wcwidth = true ∧
+    keysSingle Gen.C10.displayMappings = true ∧
+    keysNodup Gen.C10.displayMappings = true := by
+  decide +kernel
+
+/-- "each is shown in visible caret or hex notation", on the regenerated table. -/
+theorem gen_display_forms :
+    displayForms Gen.C10.displayMappings = true ∧ displayInjective Gen.C10.displayMappings = true := by
+  decide +kernel
+
+/-- The cell theorem instantiated on the real table and the real `wcwidth`. -/
+theorem real_cell_no_control (c : Char) (style : Text) :
+    Clean (mkCell Gen.C10.displayMappings Gen.C10.wcwidth [c] style).char :=
+  cell_no_control _ gen_ok.1 gen_ok.2.1 c style
+
+/-! ### the escaping writer -/
+
+/-- **`Vt100_Output.write` never emits ESC**, whatever it is given. -/
 theorem safe_write_no_esc (t : Text) : ESC ∉ safeWrite t := by
   induction t with
   | nil => simp [safeWrite]
@@ -13,5 +190,113 @@ theorem safe_write_no_esc (t : Text) : ESC ∉ safeWrite t := by
     split
     · decide
     · rename_i h; exact fun e => h e.symm
+
+example : safeWrite ['a', ESC, '[', '2', 'J'] = ['a', '?', '[', '2', 'J'] := by decide
+
+/-- the writer replaces characters one for one (cursor bookkeeping stays valid) -/
+theorem safe_write_length (t : Text) : (safeWrite t).length = t.length := by
+  simp [safeWrite]
+
+/-- the writer introduces no control character of its own -/
+theorem safe_write_no_new_control (t : Text) :
+    ∀ c ∈ safeWrite t, isControl c = true → c ∈ t := by
+  intro c hc hctl
+  simp only [safeWrite, List.mem_map] at hc
+  obtain ⟨a, ha, rfl⟩ := hc
+  split at hctl
+  · exact absurd hctl (by decide)
+  · rename_i h; simpa [h] using ha
+
+/-- control-free text passes unchanged -/
+theorem safe_write_of_clean {t : Text} (h : Clean t) : safeWrite t = t := by
+  induction t with
+  | nil => rfl
+  | cons c cs ih =>
+    have hc := h c (by simp)
+    have hcs : Clean cs := fun x hx => h x (by simp [hx])
+    simp only [safeWrite, List.map_cons] at *
+    rw [ih hcs]
+    split
+    · rename_i he; subst he; exact absurd hc (by decide)
+    · rfl
+
+theorem safe_write_clean {t : Text} (h : Clean t) : Clean (safeWrite t) := by
+  rw [safe_write_of_clean h]; exact h
+
+/-- **Cell text through the escaping writer**: for every scalar `c`, what reaches the terminal
+    for the cell `Char(c, style)` is its display text, unchanged and control-free. -/
+theorem cell_output_clean {m : Table} (wc : Char → Int) (hc : coversControls m = true)
+    (hp : valuesPrintable m = true) (c : Char) (style : Text) :
+    Clean (safeWrite (mkCell m wc [c] style).char) ∧
+    safeWrite (mkCell m wc [c] style).char = (mkCell m wc [c] style).char :=
+  ⟨safe_write_clean (cell_no_control wc hc hp c style), safe_write_of_clean (cell_no_control wc hc hp c style)⟩
+
+/-! ### the safe print path -/
+
+/-- classification of one output segment of `print_formatted_text` -/
+def PrintSegOk (sgr : Nat → Text) (reset autowrap : Text) (frs : List (Text × Text)) (sg : Seg) : Prop :=
+  match sg.1 with
+  | .gen => sg.2 = reset ∨ sg.2 = autowrap ∨ ∃ a, sg.2 = sgr a
+  | .genw => False
+  | .content => ESC ∉ sg.2
+  | .zwe => ∃ f ∈ frs, isZwe f.1 = true ∧ sg.2 = f.2
+
+theorem printSegOk_mono {sgr reset autowrap} {f : Text × Text} {frs : List (Text × Text)} {sg : Seg}
+    (h : PrintSegOk sgr reset autowrap frs sg) : PrintSegOk sgr reset autowrap (f :: frs) sg := by
+  unfold PrintSegOk at *
+  split <;> simp_all
+
+theorem printLoop_ok (attrsOf : Text → Nat) (sgr : Nat → Text) (reset autowrap : Text)
+    (frs : List (Text × Text)) (last : Option Nat) :
+    ∀ sg ∈ printLoop attrsOf sgr last frs, PrintSegOk sgr reset autowrap frs sg := by
+  induction frs generalizing last with
+  | nil => simp [printLoop]
+  | cons f rest ih =>
+    obtain ⟨style, text⟩ := f
+    intro sg hsg
+    simp only [printLoop, printFrag, List.mem_append] at hsg
+    rcases hsg with (hsg | hsg) | hsg
+    · split at hsg
+      · simp only [List.mem_singleton] at hsg; subst hsg
+        simp only [PrintSegOk]; exact Or.inr (Or.inr ⟨_, rfl⟩)
+      · simp at hsg
+    · simp only [List.mem_singleton] at hsg
+      subst hsg
+      split
+      · rename_i hz; simp [PrintSegOk, rawWrite, hz]
+      · simp only [PrintSegOk]; exact safe_write_no_esc _
+    · exact printSegOk_mono (ih _ sg hsg)
+
+/-- **Safe print path.** Every piece `print_formatted_text` sends to the output is either an
+    emitter string (reset / autowrap / an SGR code), or fragment text that went through the
+    escaping writer and contains no ESC, or the text of a fragment explicitly marked
+    `[ZeroWidthEscape]`.  Hence every ESC in the printed stream is renderer-generated or
+    explicitly marked. -/
+theorem print_segments_ok (attrsOf : Text → Nat) (sgr : Nat → Text) (reset autowrap : Text)
+    (frs : List (Text × Text)) :
+    ∀ sg ∈ printFrags attrsOf sgr reset autowrap frs, PrintSegOk sgr reset autowrap frs sg := by
+  intro sg hsg
+  simp only [printFrags, List.mem_append, List.mem_cons, List.not_mem_nil, or_false] at hsg
+  rcases hsg with (hsg | hsg) | hsg
+  · rcases hsg with h | h <;> subst h <;> simp [PrintSegOk]
+  · exact printLoop_ok attrsOf sgr reset autowrap frs none sg hsg
+  · subst hsg; simp [PrintSegOk]
+
+-- non-vacuity: a hostile fragment and a marked fragment
+example :
+    printFrags (fun _ => 0) (fun _ => ['S']) ['R'] ['W']
+      [([], ['a', ESC, '[', 'm', '\r', '\n']), (zweMarker, [ESC, ']'])] =
+    [(.gen, ['R']), (.gen, ['W']), (.gen, ['S']), (.content, ['a', '?', '[', 'm', '\r', '\n']),
+     (.zwe, [ESC, ']']), (.gen, ['R'])] := by decide
+
+/-- With no fragment marked `[ZeroWidthEscape]`, nothing is written raw except emitter strings. -/
+theorem print_unmarked_no_raw (attrsOf : Text → Nat) (sgr : Nat → Text) (reset autowrap : Text)
+    (frs : List (Text × Text)) (hun : ∀ f ∈ frs, isZwe f.1 = false) :
+    ∀ sg ∈ printFrags attrsOf sgr reset autowrap frs, sg.1 ≠ .zwe := by
+  intro sg hsg hz
+  have := print_segments_ok attrsOf sgr reset autowrap frs sg hsg
+  simp only [PrintSegOk, hz] at this
+  obtain ⟨f, hf, hzw, _⟩ := this
+  simp [hun f hf] at hzw
 
 end Ptk.C10
